@@ -253,7 +253,9 @@ static inline bool lax_rec(const Case &cs, int cur, int below, std::vector<int> 
         if (in_list(visited, x)) continue;
         if (!link_ok_lax(cs, c, cs.n[(size_t) x], below)) continue;
         visited.push_back(x);
-        bool r = lax_rec(cs, x, below + 1, visited);
+        // RFC 5280 6.1.4 (l): only certificates that are not self-issued (subject DN != issuer DN) use up path length
+        const Node &xn = cs.n[(size_t) x];
+        bool r = lax_rec(cs, x, below + (name_eq(xn.subj, xn.issuerName) ? 0 : 1), visited);
         visited.pop_back();
         if (r) return true;
     }
@@ -375,7 +377,7 @@ static inline std::string first_violation(const Case &cs, int foundAnchor)
         if (iss.version == 3 && iss.pathLen >= 0 && iss.pathLen < below) return "accepts-pathlen-violation";
         if (iss.version == 3 && iss.ku >= 0 && !(iss.ku & mint::KU_CERTSIGN)) return "accepts-issuer-without-keycertsign";
         if (revoked_lax(cs, c, iss)) return "accepts-revoked-cert";
-        below++;        // this issuer is an intermediate below the next one
+        if (!name_eq(iss.subj, iss.issuerName)) below++;        // this issuer is a (not self-issued) intermediate below the next one
     }
     return foundAnchor < 0 ? "accepts-without-anchor" : "accepts-invalid-path";
 }
@@ -1039,15 +1041,82 @@ struct Gen {
         }
     }
 
+    // ---- same-name structure: a certificate that REUSES its issuer's subject DN (looks self-issued, is signed by another key) ----
+    // issuer = the end entity itself / an intermediate / the root, with basicConstraints absent / cA=FALSE / cA=TRUE (+pathLen) and
+    // keyUsage absent / with / without keyCertSign; the same-name child is an end entity or a CA with a leaf below it (the latter
+    // with a real CA as issuer is the key-rollover layout of RFC 5280).  Only the issuer's attributes decide: the reference applies
+    // the ordinary rules, a shared name earns no exemption.
+    void gen_samename()
+    {
+        cs.kind = "same-name";
+        unsigned dr = (unsigned) t.below(100);
+        build_universe(dr < 35 ? 0 : dr < 75 ? 1 : 2);
+        int last = mpLen() - 1;
+        unsigned pr = (unsigned) t.below(100);
+        int pp = pr < 45 ? 0 : (last >= 2 && pr < 85) ? 1 + (int) t.below((uint64_t) (last - 1)) : pr < 93 ? last : 0;
+        int P = mainPath[(size_t) pp];
+        std::string cls = pp == 0 ? "ee-issuer" : pp == last ? "root-issuer" : "ca-issuer";
+        {
+            Node &p = cs.n[(size_t) P];
+            unsigned bv = (unsigned) t.below(8);
+            if (pp == 0) p.bc = bv < 3 ? mint::BC_ABSENT : bv < 6 ? mint::BC_FALSE : mint::BC_TRUE;
+            else p.bc = bv < 5 ? mint::BC_TRUE : bv == 5 ? mint::BC_FALSE : bv == 6 ? mint::BC_ABSENT : mint::BC_TRUE;
+            p.bcCrit = t.coin();
+            p.pathLen = -1;
+            if (p.bc == mint::BC_TRUE)
+            {
+                unsigned pv = (unsigned) t.below(4);
+                p.pathLen = pv == 0 ? -1 : pv == 1 ? 0 : pv == 2 ? 1 : 3;
+            }
+            unsigned kv = (unsigned) t.below(8);
+            if (kv < 3) p.ku = mint::KU_CERTSIGN | mint::KU_DIGSIG | (t.coin() ? mint::KU_CRLSIGN : 0);
+            else if (kv < 5) p.ku = -1;
+            else if (kv < 7) p.ku = mint::KU_DIGSIG | mint::KU_KEYENC;
+            else p.ku = mint::KU_CERTSIGN;
+            p.kuCrit = t.coin();
+            cls += p.bc == mint::BC_TRUE ? ":bc=ca" : p.bc == mint::BC_FALSE ? ":bc=false" : ":bc=absent";
+            cls += p.ku < 0 ? ":ku=absent" : (p.ku & mint::KU_CERTSIGN) ? ":ku=certsign" : ":ku=no-certsign";
+        }
+        bool sIsCa = t.below(100) < 45;
+        int S = add(sIsCa ? "SameNameCA" : "SameNameLeaf", P, sIsCa);
+        cs.n[(size_t) S].subj = cs.n[(size_t) P].subj;             // reuse the issuer's DN; issuerName is already that DN
+        if (t.chance(1, 7)) { cs.n[(size_t) S].signKey = cs.n[(size_t) S].key; cs.n[(size_t) S].sig = SIG_WRONGKEY; cls += ":selfsigned"; }
+        std::vector<int> ch;
+        if (sIsCa) ch.push_back(add("LeafBelowSameName", S, false));
+        ch.push_back(S);
+        bool pIsRoot = pp == last;
+        if (!pIsRoot || t.chance(1, 3)) ch.push_back(P);
+        if (!pIsRoot)
+        {
+            for (int q = pp + 1; q < last; q++) ch.push_back(mainPath[(size_t) q]);
+            if (t.chance(1, 5)) { ch.push_back(mainPath[(size_t) last]); cs.shape = "root-appended"; }
+        }
+        while (ch.size() > 5) ch.pop_back();
+        cs.chain = ch;
+        std::vector<int> an(extraRoots);
+        an.insert(an.begin() + (long) t.below(an.size() + 1), mainPath[(size_t) last]);
+        cs.anchorKind = an.size() > 1 ? "root-among-others" : "root";
+        if (!pIsRoot)
+        {
+            unsigned av = (unsigned) t.below(100);
+            if (av < 15) { an.insert(an.begin() + (long) t.below(an.size() + 1), P); cs.anchorKind = "root-and-pinned-issuer"; }
+            else if (av < 22) { an = { P }; cs.anchorKind = "pinned-issuer-only"; }
+        }
+        cs.anchors = an;
+        note(("same-name:" + cls + (sIsCa ? ":child=ca" : ":child=ee")).c_str(), pp);
+    }
+
     Case run(int forcedKind)
     {
         if (forcedKind == 4) { gen_history(); return cs; }
+        if (forcedKind == 6) { gen_samename(); finish_opts(); return cs; }
         if (forcedKind == 5) { gen_dates(); finish_opts(); return cs; }
         unsigned k = (unsigned) t.below(100);
-        int kind = forcedKind >= 0 ? forcedKind : (k < 70 ? 0 : k < 80 ? 1 : k < 92 ? 2 : k < 96 ? 3 : 5);
+        int kind = forcedKind >= 0 ? forcedKind : (k < 70 ? 0 : k < 80 ? 1 : k < 92 ? 2 : k < 96 ? 3 : k < 98 ? 5 : 6);
         switch (kind)
         {
         case 5: gen_dates(); break;
+        case 6: gen_samename(); break;
         case 1: gen_attacker(); break;
         case 2: gen_soft(); break;
         case 3: gen_crl(); break;
